@@ -4,7 +4,6 @@
 package stringy
 
 //@ func NewCommandBasedAuthorizer(ctx context.Context, l loggerProvider, b tq.AuthorRequest, u config.User) (res *CommandBasedAuthorizer)
-//@   unverified argument helpers (strings package) not under contract yet
 //@   ensures fresh(res)
 //@   ensures res != nil ==> res.loggerProvider == l
 
@@ -14,7 +13,10 @@ package stringy
 //@   ensures res != nil ==> res.loggerProvider == l
 
 //@ func (a CommandBasedAuthorizer) evaluate() (ok bool)
-//@   unverified policy evaluation is the subject of C11
+//@   requires a.loggerProvider != nil
+//@   modifies *
+//@   loop 1 invariant -1 <= rangeindex && rangeindex < len(a.user.Commands)
+//@   loop 2 invariant -1 <= rangeindex && rangeindex < len(c.Match)
 
 //@ func (sa SessionBasedAuthorizer) evaluate() (args []string, status tq.AuthorStatus)
 //@   unverified policy evaluation is the subject of C11
